@@ -9,8 +9,12 @@
 //	rt-int <N>                integer: print, parse back                  → x<text> rt=t|f
 //	rt-val <value>            program-format text, parse (+ resolve constructor calls), compare
 //	                                                                      → x<text> rt=t|f
-//	rt-type <xTEXT> (<xBADRX>*)  T := ParseType(text); s := T.String(); T' := ParseType(s); T' = T ∧ T'.String() = s
+//	rt-type <xTEXT> (<xBADRX>*) [((BITS xFTEXT)*)]
+//	                          T := ParseType(text); s := T.String(); T' := ParseType(s); T' = T ∧ T'.String() = s
 //	                                                                      → x<s> rt=t|f | <outcome of the first parse>
+//	                          the optional third argument is the float-text oracle of the model (decimal float rendering is a
+//	                          parameter, DESIGN §3.4): for every bound of a Float type inside T, its IEEE bits and the text the
+//	                          implementation prints for it in program format — computed when the op line is generated
 //	rt-api <ctor>             a collection type built through the Go constructors: (array xE LO HI) (hash xK xV LO HI)
 //	                          (collection LO HI) (string LO HI) (tuple (xT*) [LO HI]); printed text and round trip
 //	@rt-typeof <value>        the inferred types of a value (PType, DetailedType, Generic) round-trip  (implementation only)
@@ -135,7 +139,7 @@ func exec1(c px.Context, op string, args []sx.Sexp) core.Result {
 		}
 		return rtValue(c, op, v, args[0].IsList && len(args[0].List) > 2, valClass(args[0]))
 	case "rt-type":
-		if len(args) != 2 {
+		if len(args) != 2 && len(args) != 3 {
 			break
 		}
 		s, err := args[0].AsBytes()
@@ -800,6 +804,58 @@ func valOp(c px.Context, v string) string {
 	return "rt-val " + v + " " + syn.OracleSexp(text)
 }
 
+// floatOracle renders the float-text oracle of a type text: ((BITS xTEXT)…) for every float literal in it (the bounds of
+// Float types can only come from float literals: an Integer bound is refused); "" when there is none.  The literals
+// are collected from the PARSED expression, not from the resolved type: Accept() of a type that holds a default Init
+// dereferences nil and would stop the walk early.
+func floatOracle(c px.Context, text string) string {
+	if !strings.Contains(text, "Float") {
+		return ""
+	}
+	p := syn.Parse(text)
+	if p.Kind != "value" {
+		return ""
+	}
+	seen := map[uint64]bool{}
+	out := []string{}
+	var walk func(v px.Value, depth int)
+	walk = func(v px.Value, depth int) {
+		if depth > 200 {
+			return
+		}
+		switch x := v.(type) {
+		case px.Float:
+			if b := math.Float64bits(x.Float()); !seen[b] {
+				seen[b] = true
+				out = append(out, "("+strconv.FormatUint(b, 10)+" "+hx(px.ToString2(x, programFormat()))+")")
+			}
+		case *types.DeferredType:
+			for _, e := range x.Parameters() {
+				walk(e, depth+1)
+			}
+		case types.Deferred:
+			x.Arguments().Each(func(e px.Value) { walk(e, depth+1) })
+		case *types.HashEntry:
+			walk(x.Key(), depth+1)
+			walk(x.Value(), depth+1)
+		case *types.Hash:
+			x.EachPair(func(k, e px.Value) { walk(k, depth+1); walk(e, depth+1) })
+		case *types.Array:
+			x.Each(func(e px.Value) { walk(e, depth+1) })
+		}
+	}
+	_ = syn.Safely(func() px.Value { walk(p.Val, 0); return px.Undef })
+	if len(out) == 0 {
+		return ""
+	}
+	return " (" + strings.Join(out, " ") + ")"
+}
+
+// typeOp renders a model-compared rt-type op line: the text, the regexp.Compile oracle and the float-text oracle
+func typeOp(c px.Context, t string) string {
+	return "rt-type " + hx(t) + " " + syn.OracleSexp(t) + floatOracle(c, t)
+}
+
 func gen(g *core.G) {
 	c := px.CurrentContext()
 	// exhaustive: every string of length <= 2 (quick) / <= 3 (thorough) over the hostile alphabet, as a string and as a quote op
@@ -882,7 +938,7 @@ func gen(g *core.G) {
 			}
 		}
 		if ok {
-			g.Emit("rt-type " + hx(t) + " " + syn.OracleSexp(t))
+			g.Emit(typeOp(c, t))
 		} else {
 			g.Emit("@rt-type " + hx(t) + " " + syn.OracleSexp(t))
 		}
@@ -910,10 +966,37 @@ func gen(g *core.G) {
 			emitText("String["+sz+"]", true)
 		}
 	}
+	// Float[lo, hi]: every ordered pair of bound texts (accepted when lo <= hi, refused otherwise; an Integer bound is
+	// refused), the one-argument and `default` forms, nested inside the old forms and inside Struct
+	// (valid by construction — ascending bound texts — is always compared with the model)
+	emitValid := func(t string) { g.Emit(typeOp(c, t)) }
+	for i, a := range syn.FloatBoundTexts {
+		emitValid("Float[" + a + "]")
+		emitValid("Float[" + a + ", default]")
+		emitValid("Float[default, " + a + "]")
+		emitValid("Array[Float[" + a + "], 0, 1]")
+		emitValid("Struct[{a => Float[" + a + "], Optional[b] => Optional[Float[default, " + a + "]]}]")
+		emitValid("Variant[Float[" + a + "], Integer[0, 1]]")
+		emitValid("Hash[String, Float[" + a + "]]")
+		emitValid("Tuple[Float[" + a + "], Float]")
+		for j, b := range syn.FloatBoundTexts {
+			if i <= j {
+				emitValid("Float[" + a + ", " + b + "]")
+			} else {
+				emitText("Float["+a+", "+b+"]", true)
+			}
+		}
+	}
+	for _, t := range []string{"Float", "Float[default]", "Float[default, default]"} {
+		emitValid(t)
+	}
+	for _, t := range []string{"Float", "Float[default]", "Float[default, default]", "Float[1, 2]", "Float[1.0, 2]", "Float[1, 2.0]", "Float[1.0, 2.0, 3.0]", "Float['a']", "Float[1e400]",
+		"Float[[1.0]]", "Float[[1.0, 2.0]]", "Float[Float]", "Float[undef]", "Float[1.0, undef]", "Float[-1e400, 1.0]"} {
+		emitText(t, true)
+	}
 	// Struct: every key form x every value type (each answer of "accepts undef"), alone, after and before another member,
 	// and in the other surface forms of the parameter list; nested inside the old forms and the old forms inside it
 	// (valid by construction: always compared with the model, so that a creator that starts refusing a form shows)
-	emitValid := func(t string) { g.Emit("rt-type " + hx(t) + " " + syn.OracleSexp(t)) }
 	for _, k := range syn.StructKeyForms {
 		for _, v := range syn.StructValueTypes {
 			m := k + " => " + v
@@ -963,7 +1046,7 @@ func gen(g *core.G) {
 	// the modelled fragment: valid by construction, model and implementation compared (printed text and round trip verdict)
 	for i := 0; i < 20000*g.Scale; i++ {
 		t := syn.GenFragType(g.Rng, 1+g.Rng.Intn(3))
-		g.Emit("rt-type " + hx(t) + " " + syn.OracleSexp(t))
+		g.Emit(typeOp(c, t))
 	}
 	// random literal values; inferred types of values
 	for i := 0; i < 15000*g.Scale; i++ {
